@@ -25,7 +25,7 @@ class BpPart(LIFE.IoPart):
         if obs == "9999":
             return "0,1,0"
         fields = case.split(";")
-        ops = [o for o in (LIFE.nums(f) for f in fields[1:]) if o]
+        ops = [LIFE.nums(f) or [0] for f in fields[1:]]      # an empty field is an operation that does nothing
         steps = self.parse(obs)
         # judged after every step (a later, unrelated operation may end the connection)
         for i in range(len(ops)):
